@@ -315,6 +315,26 @@ def F67():
     B = bs(np.array([-1.0]), knots=[0.0, 2.0], include_intercept=True, extrapolation="extend", _state=st)
     return not np.allclose([B[k][0] for k in range(6)], [0, 3.375, -2.84375, 0.5, -0.03125, 0])
 
+def F68():
+    d = pd.DataFrame({"a\u0bf0b": [1.0, 2, 3], "x": [1.0, 2, 4]})
+    try:
+        m = model_matrix("I(`a\u0bf0b` * 2) + x", d, context={})
+    except BaseException:
+        return True
+    return not np.allclose(m.values[:, 1], [2.0, 4, 6])
+def F69():
+    return (exc(lambda: Formula("f(0x" + "F" * 5000 + ")")) not in (None, "FormulaSyntaxError", "FormulaParsingError", "SyntaxError")
+            or exc(lambda: Formula("f(" + "+".join(["a"] * 3000) + ")")) not in (None, "FormulaSyntaxError", "FormulaParsingError", "SyntaxError"))
+def F70():
+    import dataclasses
+    p = DefaultFormulaParser(feature_flags=set())
+    dataclasses.replace(p, feature_flags={"twosided", "multipart"})
+    try:
+        p.get_terms("y ~ x | z")
+    except FormulaParsingError:
+        return False
+    return True
+
 ids = sys.argv[1:] or [f"F{i}" for i in range(1, 26)]
 for i in ids:
     try:
